@@ -8,6 +8,11 @@ def _names_after(names, s):
     if op == "from":
         return {"t": ["k", "a", "b"], "u": ["k", "a", "c"],
                 "table_0": ["k", "_expr_0", "_expr_1"], "table_1": ["k", "_expr_0", "_expr_2"]}.get(s["t"], [])
+    if op == "fromlit":
+        return list(s["cols"])
+    if op == "exclude":
+        drop = {c["name"] for c in s["cols"] if c["t"] == "col"}
+        return [n for n in names if n not in drop]
     if op in ("select", "aggregate"):
         out = []
         for it in s["items"]:
